@@ -43,6 +43,29 @@ func goP7Class(blob []byte, cert *x509.Certificate) string {
 	return fmt.Sprintf("ok %v", ok)
 }
 
+// goP7ClassSeq parses once, verifies with every certificate of `warm` in turn and reports the answer for `cert`
+func goP7ClassSeq(blob []byte, warm []*x509.Certificate, cert *x509.Certificate) string {
+	var p *pkcs7.PKCS7
+	var err error
+	if pan, _ := safely(func() { p, err = pkcs7.ParsePKCS7(blob) }); pan {
+		return "panic"
+	}
+	if err != nil {
+		return "parse-err"
+	}
+	for _, w := range warm {
+		safely(func() { p.Verify(w) })
+	}
+	var ok bool
+	if pan, _ := safely(func() { ok, err = p.Verify(cert) }); pan {
+		return "panic"
+	}
+	if err != nil {
+		return "err"
+	}
+	return fmt.Sprintf("ok %v", ok)
+}
+
 // p7Eval: one (blob, certificate) pair
 func p7Eval(c *Ctx, cs Case, prop string) {
 	blob := unhx(cs.S("blob"))
@@ -64,6 +87,16 @@ func p7Eval(c *Ctx, cs Case, prop string) {
 	if goObs == "panic" {
 		c.Fail(Failure{Kind: "property", Matcher: "p7.verify_panics", What: "parsing/verification panicked", Case: cs, Go: goObs})
 		return
+	}
+	// the same question asked of a parsed object that has already answered it for other certificates
+	if pd := cs.S("prevcert"); pd != "" {
+		if prev, err := x509.ParseCertificate(unhx(pd)); err == nil {
+			seq := goP7ClassSeq(blob, []*x509.Certificate{prev, cert, prev}, cert)
+			c.Count(cs.Key()+"|seq", true, prop+"/sequence/"+cs.S("certkind")+"/"+strings.ReplaceAll(seq, " ", "-"))
+			if seq != goObs {
+				c.Fail(Failure{Kind: "property", What: "Verify on one parsed object answers differently after earlier Verify calls with other certificates (the success is not bound to this certificate's key)", Case: cs, Go: "fresh object: " + goObs + "; after Verify(signer's certificate): " + seq, Spec: "Spec.cmsVerify=" + spec})
+			}
+		}
 	}
 	if goObs == "ok true" && spec != "true" {
 		c.Fail(Failure{Kind: "property", Matcher: c04Matcher(blob, cert), What: "verification succeeded although no signer entry of this certificate carries a valid RSA-SHA256 signature over the attributes as transmitted with a message digest matching the encapsulated content", Case: cs,
@@ -579,7 +612,11 @@ func c04Gen(c *Ctx) {
 			if kc.c == nil {
 				continue
 			}
-			p7Eval(c, Case{"op": "p7", "class": class, "certkind": kc.kind, "blob": hx(blob), "cert": hx(kc.c.Raw), "seed": s.name}, "C04")
+			cs := Case{"op": "p7", "class": class, "certkind": kc.kind, "blob": hx(blob), "cert": hx(kc.c.Raw), "seed": s.name}
+			if kc.kind != "right" && s.right != nil && (class == "seed" || strings.HasPrefix(class, "forge") || strings.HasPrefix(class, "two-signers")) {
+				cs["prevcert"] = hx(s.right.Raw)
+			}
+			p7Eval(c, cs, "C04")
 		}
 	}
 	for si, s := range seeds {
